@@ -1151,6 +1151,17 @@ let () =
                                 "rentry_or_insert"; "rentry_insert"; "rentry_drop"; "raw_or_insert"; "raw_insert"; "eref_or_insert"; "eref_insert"]
          then bump branch (if lawful then "in_place_rehash_seen" else "in_place_rehash_unlawful_hasher");
          if tpost.mask <> tpre.mask && tpre.mask <> nat_of_int 0 && tpost.mask <> nat_of_int 0 && not lawful then bump branch "resize_unlawful_hasher";
+         (* the raw entry API trusts its caller: inserting through a vacant entry a key that IS stored (raw_rename
+            with a second key that is present; raw_hash_insert searching a present key under another key's hash)
+            is a caller error that stores the key twice.  The generators avoid it, but their view of the contents
+            can be stale (after an unwound operation): such a step is judged for safety only, and the reference
+            map is switched off for the rest of the script. *)
+         let stored k = List.exists (fun (e : kv) -> Z.eqb e.k_id k) (occupants tpre) in
+         let caller_error =
+           (opname = "raw_rename" && (let k1 = zs (List.nth opws 1) and k2 = zs (List.nth opws 3) in not (Z.eqb k1 k2) && stored k2))
+           || (opname = "raw_hash_insert" && (let hk = zs (List.nth opws 1) and k = zs (List.nth opws 2) in not (Z.eqb hk k) && stored k)) in
+         if caller_error then begin bump branch "raw_api_caller_error_skipped"; spec_valid := false end;
+         let do_c = do_c && not caller_error in
          (* ---- level B ---- *)
          if do_b then begin
            incr b_checked;
